@@ -171,6 +171,8 @@ def run_scenario(sc, data=None, with_history=False):
                     n_ = sc.get("NFFT") or x.shape[-1]
                     kw["Sk"] = rec._o_fft(x, n=n_)
                     res["Sk"] = np.array(kw["Sk"])
+                    if sc.get("sk_and_nfft"):
+                        kw[nk] = int(sc["sk_and_nfft"])      # Sk= together with a (conflicting) N= / NFFT=: Sk decides
                 elif sc.get("NFFT") is not None:
                     kw[nk] = sc["NFFT"]
                 kw["sides"] = sc.get("sides", "default")
@@ -710,6 +712,77 @@ def force_bw_tie(rng, sc, idx):
     return sc
 
 
+def force_both_nw_bw(rng, sc, idx):
+    """BOTH the NW and the BW keyword in one call (the documented rule: BW wins): conflicting values, agreeing
+    values, and BW on a rounding tie; different numbers of tapers result if the wrong one wins"""
+    n = sc["shape"][-1]
+    fsv = fs_of(sc)
+    sc.pop("layout", None)
+    mode = idx % 4
+    for _ in range(30):
+        m_bw = rng.randint(3, max(3, min(8, n // 2)))           # BW ~ m_bw bins  ->  NW = m_bw / 2
+        if mode in (0, 1):
+            nw = rng.choice([v for v in (1.0, 1.5, 2.0, 2.5, 3.0, 4.0) if v <= n / 4.0 and abs(2 * v - m_bw) >= 2] or [1.0])
+        elif mode == 2:
+            nw = m_bw / 2.0                                     # agreeing
+        else:
+            nw = rng.choice([1.5, 2.0, 3.0])
+        sc["NW"] = float(nw).hex()
+        sc["BW"] = float((m_bw + rng.uniform(-0.25, 0.25)) * fsv / n).hex()
+        t1 = {k: v for k, v in sc.items() if k != "BW"}
+        t2 = {k: v for k, v in sc.items() if k != "NW"}
+        if m_bw / 2.0 <= n / 4.0 and dpss_ok(t1) and dpss_ok(t2):
+            break
+    sc["both_nw_bw"] = ("conflict", "conflict", "agree", "conflict")[mode]
+    return sc
+
+
+def combo_plan(rng, est, n_small=10):
+    """option combinations that are individually covered but rarely together, as a small full factorial:
+    multitaper: low_bias x adaptive x {NW, BW, both};  periodogram(_csd): sides x NFFT {None, N, >N, <N} x
+    real/complex, plus Sk= together with a conflicting N= / NFFT="""
+    out = []
+    if est.startswith("multi_taper"):
+        i = 0
+        for lb in (True, False):
+            for ad in (False, True):
+                for how in ("NW", "BW", "both"):
+                    def make():
+                        sc = gen_scenario(rng, est, nmax=max(n_small, 17), max_ch=2, lead=[2] if est.endswith("csd") else rng.choice([[], [2]]),
+                                          layout="C")
+                        n = sc["shape"][-1]
+                        sc["low_bias"], sc["adaptive"] = lb, ad
+                        sc["NFFT"] = rng.choice([None, n + 3])
+                        sc.pop("NW", None)
+                        sc.pop("BW", None)
+                        if how == "NW":
+                            sc["NW"] = float(rng.choice([1.5, 2.0])).hex()
+                        elif how == "BW":
+                            sc["BW"] = float((rng.choice([3, 4]) + 0.2) * fs_of(sc) / n).hex()
+                        else:
+                            force_both_nw_bw(rng, sc, i)
+                        return sc
+                    out.append(runnable(make))
+                    i += 1
+    else:
+        i = 0
+        for sides in ("default", "onesided", "twosided"):
+            for nfk in ("none", "n", "gt", "lt"):
+                for cplx in (False, True):
+                    sc = gen_scenario(rng, est, nmax=17, max_ch=2, lead=[2] if est.endswith("csd") else rng.choice([[], [2]]), layout="C")
+                    n = sc["shape"][-1]
+                    set_data(sc, gen_signal(rng, sc["shape"][:-1], n, cplx))
+                    sc["sides"] = sides
+                    sc["NFFT"] = {"none": None, "n": n, "gt": n + rng.choice([1, 2, 5]), "lt": n - rng.choice([1, 2, 3])}[nfk]
+                    sc["normalize"] = True
+                    sc["use_sk"] = (i % 5 == 4)
+                    if sc["use_sk"]:
+                        sc["sk_and_nfft"] = (sc["NFFT"] or n) + 3
+                    out.append(sc)
+                    i += 1
+    return out
+
+
 def force_coherent(rng, sc):
     """adaptive weights on channels that are filtered copies of one signal (differently coloured, so each
     channel gets its own adaptive weights, yet almost perfectly coherent): the positive-semidefiniteness
@@ -868,6 +941,7 @@ def klass(sc):
         sc.get("sides", "default"), "lead%d" % (len(sc["shape"]) - 1),
         ("/adaptive" if sc.get("adaptive") else "") + ("/" + sc["layout"] if sc.get("layout") else "")
         + ("/sibling:" + sc["sibling"] if sc.get("sibling") else "")
+        + ("/NW+BW:" + sc["both_nw_bw"] if sc.get("both_nw_bw") else "") + ("/Sk+N" if sc.get("sk_and_nfft") else "")
         + ("/" + sc["dtype"] if sc.get("dtype") else "") + ("/bw-tie:" + sc["bw_tie"] if sc.get("bw_tie") else "")
         + ("/parity:" + sc["parity_cell"] if sc.get("parity_cell") else "")
         + ("/via_get_spectra" if sc.get("via_get_spectra") else ""))
